@@ -270,6 +270,14 @@ __gmp_doprnt (const struct doprnt_funs_t *funs, void *data,
             TRACE (printf ("integer, base=%d\n", param.base));
             if (! seen_precision)
               param.prec = -1;
+            if (param.prec >= 0 && param.fill == '0')
+              {
+                /* as in C, '0' is ignored for integer conversions when a
+                   precision is given */
+                param.fill = ' ';
+                if (param.justify == DOPRNT_JUSTIFY_INTERNAL)
+                  param.justify = DOPRNT_JUSTIFY_RIGHT;
+              }
             switch (type) {
             case 'j':
               /* Let's assume uintmax_t is the same size as intmax_t. */
